@@ -10,10 +10,10 @@ OptOK(s) == /\ (s.mode = "target" => s.tmpl = Absent)
             /\ (s.backend = "lsf" => s.okind # "known_none")       \* every LSF option has a default
 SgeMem == {[kind |-> "sgemem", backend |-> "sge", cores |-> c, total |-> m, unit |-> u] : c \in {1, 2, 4}, m \in {8, 1000, 3}, u \in {"g", "m"}}
 
-Cmds == {[c |-> "Echo", tok |-> "plain"], [c |-> "Echo", tok |-> "quotes"], [c |-> "Echo", tok |-> "dollar"],
+Cmds == {[c |-> "Echo", tok |-> "plain"], [c |-> "Echo", tok |-> "quotes"], [c |-> "Echo", tok |-> "dollar"], [c |-> "Echo", tok |-> "braces"],
          [c |-> "Fail"], [c |-> "Touch", f |-> "made1"], [c |-> "Touch", f |-> "made2"], [c |-> "Pwd"]}
 CmdSeqs == UNION {[1..n -> Cmds] : n \in 0..3}
-DirClasses == {"plain", "space", "squote", "dquote", "dollar", "semicolon", "amp", "glob", "dash", "unicode", "paren"}
+DirClasses == {"plain", "space", "squote", "dquote", "dollar", "semicolon", "amp", "glob", "dash", "unicode", "paren", "braces"}
 ScriptU == [cmds : CmdSeqs, dir : DirClasses, backend : Backends, logmode : {"full", "merged", "none"}, nl : {"nl", "nonl", "blank"}]
 ScriptScns == {[kind |-> "script"] @@ s : s \in (IF Sample = 0 THEN ScriptU ELSE RandomSubset(Sample, ScriptU))}
 ScriptOK(s) == s.backend = "slurm" \/ s.logmode = "full"           \* only Slurm has log modes
